@@ -1,26 +1,196 @@
-//! C20 - not built yet.
-use crate::engine::{PropertyInfo, RunCtx};
+//! C20 - resource threads: consistent shared globals; pause/resume/stop always work.
+//!
+//! A case is a command script over 2-4 `ResourceRunner`s spawned with `spawn_with_shared`
+//! over one `SharedGlobals` (see `c20/script.rs`); every script is repeated many times so
+//! that the OS varies the interleaving. The rig (`c20/rig.rs`) instruments each resource
+//! from the outside only (an `IoDriver` that sees cycle start/end and the private counters
+//! in the output image, a counting `RetainStore`) and evaluates history invariants after
+//! all threads are joined and on samples taken while they run.
+
+use std::sync::atomic::{AtomicBool, AtomicU32, Ordering::SeqCst};
+use std::sync::Mutex;
+
+use proptest::prelude::*;
+use serde_json::json;
+
+use crate::engine::tape::tape_strategy;
+use crate::engine::{Probe, PropertyInfo, RunCtx};
+
+#[path = "c20/rig.rs"]
+mod rig;
+#[path = "c20/script.rs"]
+mod script;
+
+use rig::{run_rep, RepEnd};
+use script::{normalise, script_from_tape, Script};
 
 pub fn info() -> PropertyInfo {
     PropertyInfo {
         id: "C20",
         level: "exploration",
-        rule: "not built yet",
-        assumptions: &[],
-        workers_quick: 1,
-        workers_thorough: 1,
+        rule: "case = command script (pause/resume/stop/clock advance/gate open/sample at generated moments with generated yields, spins and sleeps) over 2-4 resource threads sharing 1-2 counters and 1-3 variable pairs, repeated `reps` times against fresh threads; non-trivial = in one repetition at least 2 resources completed cycles between the first and the last command AND at least one pause() or stop() call was made while a cycle of the addressed resource was in flight (the cycle had started before the call and had not finished after it); distinct by SHA-256 of the script",
+        assumptions: &[
+            "real OS threads: interleavings are perturbed (generated yields/spins/sleeps, repetition, oversubscribed workers), not enumerated or controlled",
+            "liveness bound 10 s for stop()+join(), pause, resume and progress after a foreign fault (normal < 100 ms); exceeding it once is inconclusive, twice in a row for the same script is a violation",
+            "resources are observed from outside only: IoDriver callbacks (cycle start/end, private counters in the output image), a counting RetainStore, ResourceControl::state/last_error, SharedGlobals::get",
+            "the generated fault precedes every shared write of its cycle; what a cycle that faults half-way writes back is not asserted",
+        ],
+        workers_quick: 8,
+        workers_thorough: 12,
         address_space_limit: 0,
-        watchdog_quick_s: 600,
-        watchdog_thorough_s: 3600,
+        watchdog_quick_s: 900,
+        watchdog_thorough_s: 7200,
         run,
     }
 }
 
-/// Helper subcommands (child processes of this check); None = not mine.
-pub fn helper(_args: &[String]) -> Option<i32> {
-    None
+/// Messages of liveness bounds exceeded once (reported as inconclusive after the search).
+static INCONCLUSIVE: Mutex<Vec<String>> = Mutex::new(Vec::new());
+static INFRA: Mutex<Vec<String>> = Mutex::new(Vec::new());
+/// Set once a hang was confirmed: further evaluations (shrinking) are skipped, a 20 s
+/// candidate is too expensive to shrink.
+static HANG_CONFIRMED: AtomicBool = AtomicBool::new(false);
+/// Evaluations after the first failure (shrinking budget).
+static FAILED: AtomicBool = AtomicBool::new(false);
+static AFTER_FAIL: AtomicU32 = AtomicU32::new(0);
+const SHRINK_BUDGET: u32 = 150;
+
+fn fail(msg: String) -> Result<(), String> {
+    FAILED.store(true, SeqCst);
+    Err(msg)
+}
+
+fn check_script(case: &Script, probe: &mut Probe) -> Result<(), String> {
+    if HANG_CONFIRMED.load(SeqCst) {
+        return Ok(());
+    }
+    if FAILED.load(SeqCst) && AFTER_FAIL.fetch_add(1, SeqCst) >= SHRINK_BUDGET {
+        return Ok(());
+    }
+    let Some(s) = normalise(case) else {
+        probe.label("script=unusable");
+        return Ok(());
+    };
+    probe.label(format!("clock={}", ["std", "manual", "manual_shared"][s.clock.min(2) as usize]));
+    probe.label(format!("interval_ns={}", s.interval_ns));
+    probe.label(format!("resources={}", s.resources.len()));
+    probe.label(if s.any_gated() { "gate=yes" } else { "gate=no" });
+    probe.label(if s.fault_res().is_some() { "fault=yes" } else { "fault=no" });
+    if s.resources.iter().any(|r| r.task_us > 0) {
+        probe.label("has_task_bound_program");
+    }
+    let mut nontrivial = false;
+    let mut best = None;
+    for rep in 0..s.reps {
+        let mut end = run_rep(&s);
+        if let RepEnd::Hang(first) = end {
+            // the bound *is* the property, but one miss may be the machine: same script again
+            end = match run_rep(&s) {
+                RepEnd::Hang(second) => {
+                    HANG_CONFIRMED.store(true, SeqCst);
+                    return fail(format!(
+                        "repetition {rep}: liveness bound exceeded twice in a row for the same script: {first} / again: {second}"
+                    ));
+                }
+                other => {
+                    INCONCLUSIVE.lock().unwrap().push(format!("liveness bound exceeded once (not repeated): {first}"));
+                    other
+                }
+            };
+        }
+        match end {
+            RepEnd::Ok(st) => {
+                if st.overlapped >= 2 {
+                    probe.label("rep:overlap>=2");
+                }
+                if st.inflight_pause {
+                    probe.label("rep:pause_landed_in_cycle");
+                }
+                if st.inflight_stop {
+                    probe.label("rep:stop_landed_in_cycle");
+                }
+                if st.windows > 0 {
+                    probe.label("rep:paused_window_checked");
+                }
+                if st.fault_observed {
+                    probe.label("rep:fault_observed_live");
+                }
+                if st.others_progressed {
+                    probe.label("rep:others_progressed_after_fault");
+                }
+                if st.faulted_final {
+                    probe.label("rep:ended_with_faulted_resource");
+                }
+                if st.stop_while_paused {
+                    probe.label("rep:stop_while_paused");
+                }
+                if st.stop_while_gated {
+                    probe.label("rep:stop_while_gated");
+                }
+                if st.poll_saw_stopped {
+                    probe.label("rep:stopped_seen_before_join");
+                }
+                if st.samples > 0 {
+                    probe.label("rep:sampled");
+                }
+                probe.label("rep:total");
+                if st.overlapped >= 2 && (st.inflight_pause || st.inflight_stop) {
+                    nontrivial = true;
+                    best = Some(st);
+                }
+            }
+            RepEnd::Violation(m) => return fail(format!("repetition {rep}: {m}")),
+            RepEnd::Hang(m) => {
+                INCONCLUSIVE.lock().unwrap().push(format!("liveness bound exceeded on the retry only: {m}"));
+            }
+            RepEnd::Infra(m) => {
+                INFRA.lock().unwrap().push(m);
+                probe.label("infra_problem");
+                return Ok(());
+            }
+        }
+    }
+    if nontrivial {
+        let key = serde_json::to_vec(&s).unwrap_or_default();
+        probe.nontrivial(&key);
+        if let Some(st) = best {
+            probe.sample(json!({
+                "clock": s.clock, "interval_ns": s.interval_ns, "resources": s.resources.len(),
+                "ops": s.ops.len(), "reps": s.reps, "cycles_in_one_rep": st.cycles,
+                "script": serde_json::to_value(&s).unwrap_or_default(),
+            }));
+        }
+    }
+    Ok(())
+}
+
+/// Helper subcommands: `tpv c20-show <seed words...>` is not needed; None = not mine.
+pub fn helper(args: &[String]) -> Option<i32> {
+    if args.first().map(|s| s.as_str()) != Some("c20-source") {
+        return None;
+    }
+    // print the ST sources of a replay file's script (debugging aid)
+    let path = args.get(1)?;
+    let text = std::fs::read_to_string(path).ok()?;
+    let v: serde_json::Value = serde_json::from_str(&text).ok()?;
+    let s: Script = serde_json::from_value(v.get("case")?.clone()).ok()?;
+    let s = normalise(&s)?;
+    for i in 0..s.resources.len() {
+        println!("(* resource {i} *)\n{}", script::source_for(&s, i));
+    }
+    Some(0)
 }
 
 fn run(ctx: &mut RunCtx) {
-    ctx.inconclusive("check not built yet");
+    let reps: u16 = ctx.tier.pick(20, 50) as u16;
+    let strat = tape_strategy(220).prop_map(move |t| script_from_tape(&t, reps));
+    ctx.search("scripts", strat, ctx.tier.pick(96, 2000), check_script);
+    let inc: Vec<String> = std::mem::take(&mut *INCONCLUSIVE.lock().unwrap());
+    for m in inc {
+        ctx.inconclusive(m);
+    }
+    let infra: Vec<String> = std::mem::take(&mut *INFRA.lock().unwrap());
+    for m in infra.into_iter().take(3) {
+        ctx.inconclusive(format!("infrastructure: {}", m.chars().take(600).collect::<String>()));
+    }
 }
